@@ -13,6 +13,7 @@ import Compass.Proofs.SearchDiscipline
 import Compass.Proofs.RouteSums
 import Compass.Proofs.StateRefine
 import Compass.Proofs.Build
+import Compass.Proofs.SearchRoute
 
 namespace Compass
 namespace C03
@@ -386,6 +387,129 @@ theorem dijkstra_route_time_is_sum_explicit (c : Config α) (hadj : c.AdjConsist
     RouteSums.route_time_is_sum_speed_turnDelay hacc ⟨hj, hk⟩ htrav hac
   exact ⟨route, f, times, dls, h1, h2, hf, ht, hd, htd, hdd, hsum⟩
 
+/-! #### Edge-oriented queries (`search_algorithm::run_edge_oriented`)
+
+By design the origin and the destination edge are reported with zero cost and unchanged state — the
+origin element carries the initial state, the destination element the state of the last inner
+element — and the accumulation runs over the edges between them: the inner route is the route of the
+vertex-oriented search from the origin edge's head to the destination edge's tail, so everything above
+applies to it.  The first inner element is traversed with *no* previous edge and the destination
+element is not traversed at all: neither the turn from the origin edge onto the route nor the turn
+from the route onto the destination edge is charged a delay (nor checked against a restriction — the
+recorded C04 finding).  When the destination edge starts where the origin edge ends no search is run
+and both edges are really traversed (`forward_traversal`, whatever the direction), the second after
+the first: the accumulation then runs over both, turn delay included. -/
+
+/-- **edge-oriented, origin and destination edges not adjacent** (Dijkstra; any traversal, access,
+cost and frontier model, units, forward or reverse): the returned route is `origin :: inner ++ [dest]`;
+`origin` carries the origin edge, zero access and traversal cost and the declared initial state; `dest`
+carries the destination edge, zero costs and the state of the last inner element; the inner elements
+satisfy the link relation (each is the traversal of its edge from its predecessor's reported state
+and edge, the first from the initial state with no previous edge); the route summary is the inner
+route's summary. -/
+theorem dijkstra_edge_oriented_route_accumulates (c : Config α) (hadj : c.AdjConsistent)
+    (hwf : c.wf = some 0) (source tgt : Nat) (sched : List Nat) (r : AlgResult α)
+    (e1 e2 : EdgeRec α) (h1 : c.edges[source]? = some e1) (h2 : c.edges[tgt]? = some e2)
+    (hne : source ≠ tgt) (hnadj : e1.dst ≠ e2.src)
+    (hrun : c.runEdge source (some tgt) sched = .ok r) :
+    ∃ (inner : List (Branch α)) (last origin dest : Branch α),
+      r.routes = [origin :: inner ++ [dest]] ∧ inner ≠ [] ∧ inner.getLast? = some last ∧
+      origin.edge = source ∧ origin.access = 0 ∧ origin.traversal = 0 ∧
+      origin.state = initialState c.feats ∧
+      dest.edge = tgt ∧ dest.access = 0 ∧ dest.traversal = 0 ∧ dest.state = last.state ∧
+      RouteSums.Accumulates c inner ∧
+      RouteSums.routeSummary (origin :: inner ++ [dest]) = RouteSums.routeSummary inner := by
+  obtain ⟨res, inner, last, hres, hinner, hlast, _, _, hroutes⟩ :=
+    SearchRoute.runEdge_nonadjacent c source tgt sched r e1 e2 h1 h2 hne hnadj hrun
+  have hts : e2.src ≠ e1.dst := fun h => hnadj h.symm
+  obtain ⟨route, hr, hnil, hacc⟩ := dijkstra_route_links c hadj hwf hts hres
+  rw [hinner] at hr
+  cases hr
+  refine ⟨inner, last, SearchRoute.originBranch c source e1, SearchRoute.destBranch tgt e2 last.state,
+    hroutes, hnil, hlast, rfl, zero_eq, zero_eq, rfl, rfl, zero_eq, zero_eq, rfl, hacc, ?_⟩
+  have hl : (SearchRoute.originBranch c source e1 :: inner
+      ++ [SearchRoute.destBranch tgt e2 last.state]).getLast?
+      = some (SearchRoute.destBranch tgt e2 last.state) := by
+    rw [show SearchRoute.originBranch c source e1 :: inner
+        ++ [SearchRoute.destBranch tgt e2 last.state]
+      = (SearchRoute.originBranch c source e1 :: inner)
+        ++ [SearchRoute.destBranch tgt e2 last.state] from rfl]
+    exact List.getLast?_concat
+  simp only [RouteSums.routeSummary, hl, hlast, Option.map_some]
+  rfl
+
+/-- … hence the closed forms: the summary of an edge-oriented route is the declared initial value
+plus the sums over the *inner* edges — lengths, traversal times, and the delays of the turns between
+consecutive inner edges; the origin and destination edges and the two seam turns contribute nothing -/
+theorem dijkstra_edge_oriented_route_summary (c : Config α) (hadj : c.AdjConsistent)
+    (hwf : c.wf = some 0) (source tgt : Nat) (sched : List Nat) (r : AlgResult α)
+    (e1 e2 : EdgeRec α) (h1 : c.edges[source]? = some e1) (h2 : c.edges[tgt]? = some e2)
+    (hne : source ≠ tgt) (hnadj : e1.dst ≠ e2.src)
+    (hrun : c.runEdge source (some tgt) sched = .ok r)
+    {i : Nat} {fu : DistanceUnit} (hi : featIndex c.feats "distance" = some i)
+    (hik : (c.feats[i]?).map (·.kind) = some (FeatKind.dist fu))
+    {j : Nat} {ftu : TimeUnit} (hj : featIndex c.feats "time" = some j)
+    (hjk : (c.feats[j]?).map (·.kind) = some (FeatKind.time ftu)) :
+    ∃ (route inner : List (Branch α)) (s : List α) (fd ft : Feat α), r.routes = [route] ∧
+      route.map (·.edge) = source :: inner.map (·.edge) ++ [tgt] ∧
+      RouteSums.routeSummary route = some s ∧ c.feats[i]? = some fd ∧ c.feats[j]? = some ft ∧
+      s[i]? = some (fd.init + ((inner.map (·.edge)).map (RouteSums.distTerm c.trav c.edges fu)).sum) ∧
+      s[j]? = some (ft.init + ((inner.map (·.edge)).map (RouteSums.timeTerm c.trav c.edges ftu)).sum
+            + ((RouteSums.pairs (inner.map (·.edge))).map
+                (fun p => RouteSums.turnDelayTerm c ftu p.1 p.2)).sum) ∧
+      ∀ l, featIndex c.feats "distance" ≠ some l → featIndex c.feats "time" ≠ some l →
+        s[l]? = (c.feats[l]?).map (·.init) := by
+  obtain ⟨inner, last, origin, dest, hroutes, hnil, _, ho, _, _, _, hd, _, _, _, hacc, hsum⟩ :=
+    dijkstra_edge_oriented_route_accumulates c hadj hwf source tgt sched r e1 e2 h1 h2 hne hnadj hrun
+  obtain ⟨s, fd, ft, hs, hfd, hft, hdist, htime, hother⟩ :=
+    RouteSums.summary_closed_form hacc hnil ⟨hi, hik⟩ ⟨hj, hjk⟩
+  refine ⟨_, inner, s, fd, ft, hroutes, ?_, by rw [hsum]; exact hs, hfd, hft, hdist, htime, hother⟩
+  simp [ho, hd]
+
+/-- **edge-oriented, adjacent edges** (`e1.dst = e2.src`; any algorithm and direction): the route is
+the two edges, both really traversed in travel order — the origin edge from the declared initial state
+with no previous edge, the destination edge from the origin edge's state with the origin edge as
+previous edge — so the link relation holds of the whole route for the forward configuration, and the
+summary is the closed form over both edges, the delay of the turn between them included -/
+theorem edge_oriented_adjacent_route_accumulates (c : Config α)
+    (source tgt : Nat) (sched : List Nat) (r : AlgResult α)
+    (e1 e2 : EdgeRec α) (h1 : c.edges[source]? = some e1) (h2 : c.edges[tgt]? = some e2)
+    (hne : source ≠ tgt) (hadj : e1.dst = e2.src)
+    (hrun : c.runEdge source (some tgt) sched = .ok r) :
+    ∃ b1 b2 : Branch α, r.routes = [[b1, b2]] ∧ b1.edge = source ∧ b2.edge = tgt ∧
+      RouteSums.Accumulates ({ c with reverse := false } : Config α) [b1, b2] ∧
+      RouteSums.routeSummary [b1, b2] = some b2.state := by
+  obtain ⟨ac1, tc1, st1, ac2, tc2, st2, ht1, ht2, hroutes, _, _⟩ :=
+    SearchRoute.runEdge_adjacent c source tgt sched r e1 e2 h1 h2 hne hadj hrun
+  exact ⟨_, _, hroutes, rfl, rfl, ⟨ht1, ht2, trivial⟩, rfl⟩
+
+/-- … with the sums written out -/
+theorem edge_oriented_adjacent_route_summary (c : Config α)
+    (source tgt : Nat) (sched : List Nat) (r : AlgResult α)
+    (e1 e2 : EdgeRec α) (h1 : c.edges[source]? = some e1) (h2 : c.edges[tgt]? = some e2)
+    (hne : source ≠ tgt) (hadj : e1.dst = e2.src)
+    (hrun : c.runEdge source (some tgt) sched = .ok r)
+    {i : Nat} {fu : DistanceUnit} (hi : featIndex c.feats "distance" = some i)
+    (hik : (c.feats[i]?).map (·.kind) = some (FeatKind.dist fu))
+    {j : Nat} {ftu : TimeUnit} (hj : featIndex c.feats "time" = some j)
+    (hjk : (c.feats[j]?).map (·.kind) = some (FeatKind.time ftu)) :
+    ∃ (route : List (Branch α)) (s : List α) (fd ft : Feat α), r.routes = [route] ∧
+      route.map (·.edge) = [source, tgt] ∧
+      RouteSums.routeSummary route = some s ∧ c.feats[i]? = some fd ∧ c.feats[j]? = some ft ∧
+      s[i]? = some (fd.init + (RouteSums.distTerm c.trav c.edges fu source
+                + (RouteSums.distTerm c.trav c.edges fu tgt + 0))) ∧
+      s[j]? = some (ft.init + (RouteSums.timeTerm c.trav c.edges ftu source
+                + (RouteSums.timeTerm c.trav c.edges ftu tgt + 0))
+            + (RouteSums.turnDelayTerm ({ c with reverse := false } : Config α) ftu source tgt + 0)) := by
+  obtain ⟨b1, b2, hroutes, hb1, hb2, hacc, _⟩ :=
+    edge_oriented_adjacent_route_accumulates c source tgt sched r e1 e2 h1 h2 hne hadj hrun
+  obtain ⟨s, fd, ft, hs, hfd, hft, hdist, htime, _⟩ :=
+    RouteSums.summary_closed_form (c := ({ c with reverse := false } : Config α)) hacc (by simp)
+      ⟨hi, hik⟩ ⟨hj, hjk⟩
+  refine ⟨_, s, fd, ft, hroutes, by simp [hb1, hb2], hs, hfd, hft, ?_, ?_⟩
+  · simpa [hb1, hb2] using hdist
+  · simpa [hb1, hb2, RouteSums.pairs] using htime
+
 /- Full statement ("for every algorithm") is FALSE of model and code for A* runs whose estimate is
 inconsistent for the network: see known_findings.txt key route/stale-link-after-reopening and the
 5-vertex witness in harness/src/searchprops.rs (`stale_link_witness`); the theorem above is the
@@ -493,6 +617,64 @@ example : ∃ res route, runVertexOriented dijkstraConfig.inst 0 (some 4) [0, 1,
         simp [RouteSums.routeSummary, List.getLast?_map, Function.comp_def]
       rw [h1, hstates]
       rfl
+
+/-- edge-oriented on `dijkstraConfig`: origin edge 1 (s→w), destination edge 4 (v→t); the inner route
+is w→u→v (edges 2, 3) with the 2000 s right turn between them; the origin and destination elements
+repeat the initial state and the last inner state, and the summary is the inner route's: distance 200,
+time 2000 — the lengths of edges 1 and 4 and the two seam turns are not in it -/
+example : routeStatesOf (dijkstraConfig.runEdge 1 (some 4) [1, 2, 3]) =
+    some [[(1, [0, 0]), (2, [100, 0]), (3, [200, 2000]), (4, [200, 2000])]] := by decide +kernel
+
+/-- adjacent edges on `dijkstraConfig`: origin edge 2 (w→u), destination edge 3 (u→v): both traversed,
+the turn delay between them charged -/
+example : routeStatesOf (dijkstraConfig.runEdge 2 (some 3) []) =
+    some [[(2, [100, 0]), (3, [200, 2000])]] := by decide +kernel
+
+/-! ### The route summary of the response (`construct_route_output`)
+
+`construct_route_output` (`plugin/output/default/traversal/plugin.rs`) writes
+`traversal_summary = state_model.serialize_state(&route.last().result_state)`: the state of the last
+route element, named feature by feature.  C20's output model (`Model/Output.lean`) models the `path`
+member and treats states as opaque payloads (its `constructRouteOutput` takes the same
+`route.getLast?`); the `traversal_summary` member is modelled here, over C11's `serializeState`.
+`RouteSums.routeSummary route = route.getLast?.map state` is therefore not only a definition: it is
+the vector this member serialises (tie to the code: by reading, three lines; `serialize_state` itself
+is tied by C11's correspondence run). -/
+
+/-- the `traversal_summary` member of `construct_route_output`; `none`: the route is empty (an error
+response, "cannot find result route state when route is empty") -/
+def traversalSummary (m : StateModel α) (route : List (Branch α)) : Option (List (String × α)) :=
+  route.getLast?.map (fun last => m.serializeState last.state)
+
+/-- the reported summary is the serialisation of `routeSummary` — the state after the last edge —
+and, for a state model represented by the configuration's features, it pairs every feature's name with
+that state's value in the feature's slot (hence with the closed forms of `dijkstra_route_summary` /
+`dijkstra_edge_oriented_route_summary`) -/
+theorem traversal_summary_is_state_after_last_edge (c : Config α) (m : StateModel α)
+    (hm : StateRefine.Represents m c.feats) (route : List (Branch α)) :
+    traversalSummary m route = (RouteSums.routeSummary route).map m.serializeState ∧
+    ∀ s, RouteSums.routeSummary route = some s →
+      traversalSummary m route = some ((c.feats.map (·.name)).zip s) ∧
+      ∀ (i : Nat) (f : Feat α) (x : α), c.feats[i]? = some f → s[i]? = some x →
+        (f.name, x) ∈ (c.feats.map (·.name)).zip s := by
+  have hser : ∀ s : List α, m.serializeState s = (c.feats.map (·.name)).zip s := by
+    intro s
+    unfold StateModel.serializeState
+    rw [StateModel.iter_eq hm.1, hm.2, ← StateRefine.toEntries_keys, List.zip_map_left]
+    apply List.map_congr_left
+    intro p _
+    rfl
+  refine ⟨by simp [traversalSummary, RouteSums.routeSummary, Option.map_map, Function.comp_def], ?_⟩
+  intro s hs
+  refine ⟨?_, ?_⟩
+  · have : traversalSummary m route = (RouteSums.routeSummary route).map m.serializeState := by
+      simp [traversalSummary, RouteSums.routeSummary, Option.map_map, Function.comp_def]
+    rw [this, hs, Option.map_some, hser]
+  · intro i f x hf hx
+    rw [List.mem_iff_getElem?]
+    refine ⟨i, ?_⟩
+    rw [List.getElem?_zip_eq_some]
+    exact ⟨by simp [hf], hx⟩
 
 /-! ### The same statements over the full state model (`Model/StateModel.lean`, property C11)
 
